@@ -1959,6 +1959,183 @@ func (e *c17Env) refreshBatch(rng *rand.Rand, cfg c17Cfg, locs []c17Loc, whites 
 	}
 }
 
+// configuredEntryOps covers entries that are ALREADY in the configuration
+// (hand-written, kept from before a pattern change or a schema upgrade) and
+// DISABLED, and the set_url requests that make the server read them without
+// the location being edited.  Phases, each for every entry of the batch and
+// followed by one observation of the whole instance:
+//
+//  1. set_url(enable-configured): url == data.url, enabled=true (what the
+//     enable checkbox sends);
+//  2. set_url(toggle-off-on): enabled=false, then enabled=true again;
+//  3. set_url(rename-only): a new name, same url, enabled=true;
+//  4. set_url(respelled): data.url is another spelling of the same place.
+//
+// With prepopulate, a cached file for every list id is in the data directory
+// before the instance starts.  The oracle is the one of refresh: the list
+// counts as taken when it has got a stored file (or its cached file was
+// replaced); the status codes of the requests are not judged, because
+// nothing says that renaming or disabling such an entry must be refused.
+func (e *c17Env) configuredEntryOps(rng *rand.Rand, cfg c17Cfg, locs []c17Loc, whites []bool, prepopulate bool) {
+	rep := e.rep
+	dataDir, err := e.newWork()
+	if err != nil {
+		rep.Inconcl("could not create a data directory: " + err.Error())
+		return
+	}
+	defer c17RemoveWork(dataDir)
+	locs = append([]c17Loc(nil), locs...)
+	whites = append([]bool(nil), whites...)
+	for i, l := range e.extraLocs(rng, dataDir, 1) {
+		if l.Class == "inst-plain" || i%2 == 0 {
+			locs = append(locs, l)
+			whites = append(whites, i%3 == 0)
+		}
+	}
+	var filters, allow []FilterYAML
+	for i, l := range locs {
+		f := FilterYAML{Enabled: false, URL: l.S, Name: fmt.Sprintf("configured %d", i), Filter: Filter{ID: 1000 + i}}
+		if whites[i] {
+			allow = append(allow, f)
+		} else {
+			filters = append(filters, f)
+		}
+	}
+	prior := map[int][]byte{}
+	if prepopulate {
+		if err = os.MkdirAll(filepath.Join(dataDir, filterDir), 0o755); err != nil {
+			rep.Inconcl(err.Error())
+			return
+		}
+		for i := range locs {
+			b := []byte(fmt.Sprintf("! Title: cached %d\n||cache-%d.example^\n", i, i))
+			if err = os.WriteFile(c17CacheFile(dataDir, 1000+i), b, 0o644); err != nil {
+				rep.Inconcl(err.Error())
+				return
+			}
+			prior[1000+i] = b
+		}
+	}
+	in, err := e.newInstAt(cfg, filters, allow, dataDir)
+	if err != nil {
+		if cfg.Kind == "malformed-pattern" {
+			rep.Event("malformed_pattern_lists_refused_at_start")
+			return
+		}
+		rep.Inconcl("filtering.New for a batch of configured entries failed: " + err.Error())
+		return
+	}
+	defer in.d.Close()
+	rep.Event("configured_entry_batches")
+	cur := make([]string, len(locs)) // current url of every entry
+	for i, l := range locs {
+		cur[i] = l.S
+	}
+	var ctl []string
+	for _, l := range locs {
+		if l.CtlHost != "" {
+			ctl = append(ctl, l.CtlHost)
+		}
+	}
+	set := func(i int, newURL, name string, enabled bool) int {
+		st, _ := in.call(http.MethodPost, "/control/filtering/set_url", map[string]any{"url": cur[i], "whitelist": whites[i],
+			"data": map[string]any{"name": name, "url": newURL, "enabled": enabled}})
+		if c17OK(st) {
+			cur[i] = newURL
+		}
+		return st
+	}
+	evaluate := func(entry string, sts []int) {
+		entries := in.status()
+		stored := in.storedContent()
+		hits := in.probe(ctl...)
+		for i, l := range locs {
+			lj := l
+			lj.S = cur[i]
+			ex := c17Oracle(cfg.Patterns, e.tr.cwd, lj.S)
+			ob := &c17Obs{Entry: entry, Whitelist: whites[i], Statuses: []int{sts[i]}}
+			id := 1000 + i
+			for _, en := range entries {
+				if en.ID == id {
+					ob.Listed, ob.RulesCount = true, en.RulesCount
+				}
+			}
+			ob.StoredFiles = map[string][]int{}
+			for p, ns := range stored {
+				if strings.HasPrefix(filepath.Base(p), strconv.Itoa(id)+".") {
+					ob.StoredFiles[p] = ns
+				}
+			}
+			ob.CheckHost = map[string][]int{}
+			for h, ids := range hits {
+				for _, hid := range ids {
+					if hid == id {
+						ob.CheckHost[h] = ids
+					}
+				}
+			}
+			curB, rerr := os.ReadFile(c17CacheFile(in.dataDir, id))
+			old, had := prior[id]
+			changed := (rerr == nil) != had || (rerr == nil && !bytes.Equal(curB, old))
+			ob.CacheChanged, ob.CachedBefore = &changed, &had
+			if !changed {
+				ob.RulesCount = 0
+			}
+			ob.Accepted = changed || len(ob.StoredFiles) > 0
+			if !ex.IsHTTP && !ex.Liberal {
+				rep.Event("configured_disabled_entries_outside_patterns_enabled_through_set_url")
+			}
+			in.judgeRefresh(lj, ex, ob)
+		}
+		for p, ns := range stored {
+			for _, n := range ns {
+				own := false
+				for i := range locs {
+					if strings.HasPrefix(filepath.Base(p), strconv.Itoa(1000+i)+".") {
+						own = true
+					}
+				}
+				if !own && !in.allowed[n] {
+					rep.Violate("unsafe-read:"+entry+":unattributed", "content of a file outside the patterns in "+p,
+						map[string]any{"safe_fs_patterns": cfg.Patterns, "file": in.fileByN(n), "stored_in": p})
+				}
+			}
+		}
+	}
+	sts := make([]int, len(locs))
+	// 1. Enable, location untouched.
+	for i := range locs {
+		sts[i] = set(i, cur[i], fmt.Sprintf("configured %d", i), true)
+	}
+	evaluate("set_url(enable-configured)", sts)
+	// 2. Off and on again.
+	for i := range locs {
+		set(i, cur[i], fmt.Sprintf("configured %d", i), false)
+		sts[i] = set(i, cur[i], fmt.Sprintf("configured %d", i), true)
+	}
+	evaluate("set_url(toggle-off-on)", sts)
+	// 3. A new name only.
+	for i := range locs {
+		sts[i] = set(i, cur[i], fmt.Sprintf("renamed %d", i), true)
+	}
+	evaluate("set_url(rename-only)", sts)
+	// 4. Another spelling of the same place.
+	for i, l := range locs {
+		ns := cur[i]
+		switch {
+		case c17IsHTTP(ns):
+			ns += "?v=2"
+		case filepath.IsAbs(ns) && !strings.ContainsAny(ns, "\x00\n\r"):
+			ns = filepath.Dir(ns) + "/./" + filepath.Base(ns)
+			if strings.HasSuffix(l.S, "/") {
+				ns += "/"
+			}
+		}
+		sts[i] = set(i, ns, fmt.Sprintf("renamed %d", i), true)
+	}
+	evaluate("set_url(respelled)", sts)
+}
+
 // judgeRefresh is judge without the status-code expectations that only make
 // sense for add/set (the refresh call itself answers 200 for the batch).
 func (in *c17Inst) judgeRefresh(loc c17Loc, ex c17Expect, ob *c17Obs) {
@@ -2182,6 +2359,10 @@ func (e *c17Env) runConfig(rng *rand.Rand, cfg c17Cfg, nRandom int) {
 		for _, mode := range c17RestartModes {
 			e.refreshBatch(rng, cfg, part, whites, mode)
 		}
+		// Entries already in the configuration, disabled, and the set_url
+		// requests that make the server read them (every other batch with
+		// cached files present).
+		e.configuredEntryOps(rng, cfg, part, whites, (at/batch)%2 == 1)
 	}
 }
 
@@ -2272,6 +2453,7 @@ func c17Run(t *testing.T, rep *verifkit.Report, strace bool) {
 		"entry:set_url(disabled-then-enabled)", "entry:refresh", "entry:refresh(second)",
 		"entry:refresh(restart:cache-prepopulated)", "entry:refresh(restart:after-real-refresh)",
 		"entry:refresh(restart:patterns-changed)",
+		"entry:set_url(enable-configured)", "entry:set_url(toggle-off-on)", "entry:set_url(rename-only)", "entry:set_url(respelled)",
 		"spelling:inst-plain/add_url", "spelling:inst-plain/set_url", "spelling:inst-plain/refresh",
 		"spelling:inst-dotdot/add_url", "spelling:inst-dotdot/refresh(restart:cache-prepopulated)",
 		"spelling:inst-plain/refresh(restart:patterns-changed)"} {
